@@ -1223,6 +1223,16 @@ def rule_claim_sem(ctx: RuleContext, p: Program, rid: str, max_len: int = 3) -> 
                 raise self.err(cls_expr, 'isinstance against an unknown class')
             return class_of[v.cls].is_subclass_of(target)
 
+        def method(self, cls: str, name: str) -> Any:            # type: ignore[override]
+            # methods and properties of the token classes themselves (a helper the claim code calls on a token is interpreted, not guessed)
+            if cls in class_of:
+                f_ = class_of[cls].lookup(name)
+                if isinstance(f_, FuncInfo):
+                    return f_
+                if type(f_).__name__ == 'CustomProp' and getattr(f_, 'fget', None) is not None:
+                    return f_.fget
+            return super().method(cls, name)
+
         def expr(self, e: Any, env: dict) -> Any:                 # type: ignore[override]
             if isinstance(e, ast.Attribute):
                 b = e.value
@@ -1268,8 +1278,8 @@ def rule_claim_sem(ctx: RuleContext, p: Program, rid: str, max_len: int = 3) -> 
     def mk(ch: str, i: int, edge_indented: bool = True) -> Any:
         if ch == 'P':
             return possem.Obj('Placeholder', {'raw_text': '', 'RULE': 'PLACEHOLDER'}, f'{i}:placeholder')
-        if ch == 'N':
-            return possem.Obj('Newline', {'raw_text': '\n', 'RULE': 'NEWLINE'}, f'{i}:newline')
+        if ch in 'NM':
+            return possem.Obj('Newline', {'raw_text': '\n' if ch == 'N' else '\r\n', 'RULE': 'NEWLINE'}, f'{i}:newline' + ('' if ch == 'N' else ' (CR LF)'))
         if ch in 'cCdD':
             return possem.Obj('BlockComment', {'raw_text': '; x', 'RULE': 'BLOCK_COMMENT', 'claimed': ch in 'CD',
                                                'indent': ('    ' if ch in 'cC' else '  ') if edge_indented else ('' if ch in 'cC' else '  '),
@@ -1279,7 +1289,7 @@ def rule_claim_sem(ctx: RuleContext, p: Program, rid: str, max_len: int = 3) -> 
     n = 0
     problem = ''
     problem_class = ''
-    alphabet = 'PNcCdO'
+    alphabet = 'PNMcCdO'          # M: a line break written CR LF -- one line break like any other
     for k in range(0, max_len + 1):
         for seq in itertools.product(alphabet, repeat=k):
             for backwards in (False, True):
@@ -1301,7 +1311,7 @@ def rule_claim_sem(ctx: RuleContext, p: Program, rid: str, max_len: int = 3) -> 
                         want: Any = None
                         refuse = False
                         other_class = False
-                        if j < len(seq) and seq[j] == 'N':
+                        if j < len(seq) and seq[j] in 'NM':
                             j += 1
                             while j < len(seq) and seq[j] == 'P':
                                 j += 1
@@ -1312,7 +1322,7 @@ def rule_claim_sem(ctx: RuleContext, p: Program, rid: str, max_len: int = 3) -> 
                                     want = side[j]
                                 elif not ignore:
                                     refuse = True
-                        shown = ' '.join({'P': 'placeholder', 'N': 'newline', 'c': 'comment', 'C': 'claimed-comment', 'd': 'comment(less indented)', 'O': 'other'}[c] for c in seq) or '(nothing)'
+                        shown = ' '.join({'P': 'placeholder', 'N': 'newline', 'M': 'newline(CR LF)', 'c': 'comment', 'C': 'claimed-comment', 'd': 'comment(less indented)', 'O': 'other'}[c] for c in seq) or '(nothing)'
                         where_ = f'{"before" if backwards else "after"} a{"n indent" if edge_kind == "Indent" else " plain"} edge token, neighbours [{shown}], ignore_if_already_claimed={ignore}'
                         try:
                             extra_kw: dict = {}
